@@ -31,12 +31,13 @@ theorem slot_validate (s : Bytes) (b : Bool) (h : Header) (hs : SlotIs s (some (
 /-- reading entries: the frames that carry the current bit, up to the first one that does not -/
 theorem readEntries_frames (cur : Bool) (fs : List (Rotation.Frame Entry)) (hok : ∀ f ∈ fs, EntryOK f.entry) :
     ∀ fuel, fs.length < fuel →
-      ∃ n, readEntries cur fuel (framesBytes fs) = .ok ((takeBit cur fs).map (fun f => (f.entry, f.partial_)), n) := by
+      ∃ n, readEntries cur fuel (framesBytes fs) = .ok ((takeBit cur fs).map (fun f => (f.entry, f.partial_)), n)
+        ∧ n = (framesBytes (takeBit cur fs)).length := by
   induction fs with
   | nil =>
     intro fuel hf
     obtain ⟨fuel, rfl⟩ : ∃ x, fuel = x + 1 := ⟨fuel - 1, by omega⟩
-    exact ⟨0, by simp [framesBytes, readEntries, validateLeader_nil, takeBit]⟩
+    exact ⟨0, by simp [framesBytes, readEntries, validateLeader_nil, takeBit], by simp [framesBytes, takeBit]⟩
   | cons f rest ih =>
     intro fuel hf
     obtain ⟨fuel, rfl⟩ : ∃ x, fuel = x + 1 := ⟨fuel - 1, by omega⟩
@@ -51,13 +52,17 @@ theorem readEntries_frames (cur : Bool) (fs : List (Rotation.Frame Entry)) (hok 
     · simp only [hb, ne_eq, not_true_eq_false, ite_false]
       rw [decEntry_enc f.entry hw.1]
       simp only []
-      obtain ⟨n, hn⟩ := ih (fun g hg => hok g (by simp [hg])) fuel (by simp at hf; omega)
+      obtain ⟨n, hn, hnl⟩ := ih (fun g hg => hok g (by simp [hg])) fuel (by simp at hf; omega)
       rw [hn]
-      refine ⟨n + ((frame (encEntry f.entry) f.bit f.partial_ ++ framesBytes rest).length - (framesBytes rest).length), ?_⟩
-      simp [takeBit, hb]
+      refine ⟨n + ((frame (encEntry f.entry) f.bit f.partial_ ++ framesBytes rest).length - (framesBytes rest).length), ?_, ?_⟩
+      · simp [takeBit, hb]
+      · have hb' : (f.bit == cur) = true := by simpa using hb
+        simp only [takeBit, hb', ite_true, framesBytes, List.map_cons, List.flatten_cons, List.length_append] at hnl ⊢
+        rw [hnl, ← hb]; omega
     · have hne : (f.bit == cur) = false := by simpa using hb
-      refine ⟨0, ?_⟩
-      simp [hb, takeBit, hne]
+      refine ⟨0, ?_, ?_⟩
+      · simp [hb, takeBit, hne]
+      · simp [takeBit, hne, framesBytes]
 
 theorem frames_length_le (fs : List (Rotation.Frame Entry)) : fs.length ≤ (framesBytes fs).length := by
   induction fs with
@@ -91,7 +96,8 @@ theorem openLog_abs (s0 s1 : Bytes) (c0 c1 : Option (Bool × Header)) (fs : List
     (h0 : SlotIs s0 c0) (h1 : SlotIs s1 c1) (hok : ∀ f ∈ fs, EntryOK f.entry)
     (bits : Bits) (h : Header) (es : List Entry)
     (hopen : (⟨c0, c1, fs⟩ : Rotation.Log Header Entry).open = some (bits, h, es)) :
-    ∃ ost, openLog none (s0 ++ s1 ++ framesBytes fs) = .ok ⟨ost, h, [], es⟩ := by
+    ∃ ost, openLog none (s0 ++ s1 ++ framesBytes fs) = .ok ⟨ost, h, [], es⟩
+      ∧ ost.bits = (bits.b0, bits.b1) ∧ ost.entriesByteLength = (framesBytes (takeBit bits.cur fs)).length := by
   have hs : Spec.headerSize = 4096 := rfl
   have hE : Spec.entriesOffset = 8192 := rfl
   generalize hR : framesBytes fs = Rg
@@ -112,18 +118,19 @@ theorem openLog_abs (s0 s1 : Bytes) (c0 c1 : Option (Bool × Header)) (fs : List
   have c1' : ¬ (s0 ++ s1 ++ Rg).length < Spec.headerSize := by rw [hlen, hs]; omega
   have c2' : ¬ (s0 ++ s1 ++ Rg).length < 2 * Spec.headerSize := by rw [hlen, hs]; omega
   -- the entries part, for a given current bit
-  have hentries : ∀ (st : Oplog.State) (hh : Header), es = seen st.currentBit fs →
-      ∃ ost, readLog ⟨st, hh, [], []⟩ (s0 ++ s1 ++ Rg) = .ok ⟨ost, hh, [], es⟩ := by
-    intro st hh hes
+  have hentries : ∀ (st : Oplog.State) (hh : Header), es = seen st.currentBit fs → st.entriesByteLength = 0 →
+      ∃ ost, readLog ⟨st, hh, [], []⟩ (s0 ++ s1 ++ Rg) = .ok ⟨ost, hh, [], es⟩
+        ∧ ost.bits = st.bits ∧ ost.entriesByteLength = (framesBytes (takeBit st.currentBit fs)).length := by
+    intro st hh hes hz
     unfold readLog
     by_cases hgt : (s0 ++ s1 ++ Rg).length > Spec.entriesOffset
     · simp only [hgt, ite_true, dE]
       have hflen : fs.length < (s0 ++ s1 ++ Rg).length := by
         have := frames_length_le fs
         rw [hlen, ← hR]; omega
-      obtain ⟨n, hn⟩ := readEntries_frames st.currentBit fs hok (s0 ++ s1 ++ framesBytes fs).length (by rw [hR]; exact hflen)
+      obtain ⟨n, hn, hnl⟩ := readEntries_frames st.currentBit fs hok (s0 ++ s1 ++ framesBytes fs).length (by rw [hR]; exact hflen)
       rw [← hR, hn]
-      refine ⟨{ st with entriesLength := ((takeBit st.currentBit fs).map fun f => (f.entry, f.partial_)).length, entriesByteLength := n }, ?_⟩
+      refine ⟨{ st with entriesLength := ((takeBit st.currentBit fs).map fun f => (f.entry, f.partial_)).length, entriesByteLength := n }, ?_, rfl, hnl⟩
       simp only [dropTP_map, hes]
       rfl
     · have hR0 : Rg.length = 0 := by rw [hlen, hE] at hgt; omega
@@ -135,9 +142,10 @@ theorem openLog_abs (s0 s1 : Bytes) (c0 c1 : Option (Bool × Header)) (fs : List
           have := frames_length_le (f :: rest)
           rw [hR, hR0] at this
           simp at this
-      refine ⟨st, ?_⟩
-      simp only [hgt, ite_false]
-      rw [hes, hfs]; rfl
+      refine ⟨st, ?_, rfl, ?_⟩
+      · simp only [hgt, ite_false]
+        rw [hes, hfs]; rfl
+      · rw [hz, hfs]; simp [takeBit, framesBytes]
   unfold openLog
   simp only [c1', c2', ite_false, t0, d0, t1]
   cases c0 with
@@ -149,9 +157,10 @@ theorem openLog_abs (s0 s1 : Bytes) (c0 c1 : Option (Bool × Header)) (fs : List
       obtain ⟨r1, hv1⟩ := slot_validate s1 b1 hh1 h1
       have hv0 : validateLeader s0 = none := h0
       simp only [Rotation.Log.open, Option.some.injEq, Prod.mk.injEq] at hopen
-      obtain ⟨_, rfl, hes⟩ := hopen
+      obtain ⟨hbits, rfl, hes⟩ := hopen
       simp only [hv0, hv1, decode_slot hh1 h1.2.1]
-      exact hentries ⟨(!b1, b1), 0, 0⟩ hh1 hes.symm
+      obtain ⟨ost, e1, e2, e3⟩ := hentries ⟨(!b1, b1), 0, 0⟩ hh1 hes.symm rfl
+      exact ⟨ost, e1, by rw [e2, ← hbits], by rw [e3, ← hbits]; rfl⟩
   | some p0 =>
     obtain ⟨b0, hh0⟩ := p0
     obtain ⟨r0, hv0⟩ := slot_validate s0 b0 hh0 h0
@@ -159,26 +168,29 @@ theorem openLog_abs (s0 s1 : Bytes) (c0 c1 : Option (Bool × Header)) (fs : List
     | none =>
       have hv1 : validateLeader s1 = none := h1
       simp only [Rotation.Log.open, Option.some.injEq, Prod.mk.injEq] at hopen
-      obtain ⟨_, rfl, hes⟩ := hopen
+      obtain ⟨hbits, rfl, hes⟩ := hopen
       simp only [hv0, hv1, decode_slot hh0 h0.2.1]
-      exact hentries ⟨(b0, b0), 0, 0⟩ hh0 hes.symm
+      obtain ⟨ost, e1, e2, e3⟩ := hentries ⟨(b0, b0), 0, 0⟩ hh0 hes.symm rfl
+      exact ⟨ost, e1, by rw [e2, ← hbits], by rw [e3, ← hbits]; rfl⟩
     | some p1 =>
       obtain ⟨b1, hh1⟩ := p1
       obtain ⟨r1, hv1⟩ := slot_validate s1 b1 hh1 h1
       simp only [Rotation.Log.open, Option.some.injEq, Prod.mk.injEq] at hopen
-      obtain ⟨_, hhd, hes⟩ := hopen
+      obtain ⟨hbits, hhd, hes⟩ := hopen
       simp only [hv0, hv1]
       by_cases hb : b0 = b1
       · subst hb
         simp only [beq_self_eq_true, ite_true] at hhd ⊢
         rw [← hhd]
         simp only [decode_slot hh0 h0.2.1]
-        exact hentries ⟨(b0, b0), 0, 0⟩ hh0 hes.symm
+        obtain ⟨ost, e1, e2, e3⟩ := hentries ⟨(b0, b0), 0, 0⟩ hh0 hes.symm rfl
+        exact ⟨ost, e1, by rw [e2, ← hbits], by rw [e3, ← hbits]; rfl⟩
       · have hbe : (b0 == b1) = false := by simpa using hb
         simp only [hbe, Bool.false_eq_true, ite_false] at hhd ⊢
         rw [← hhd]
         simp only [decode_slot hh1 h1.2.1]
-        exact hentries ⟨(b0, b1), 0, 0⟩ hh1 hes.symm
+        obtain ⟨ost, e1, e2, e3⟩ := hentries ⟨(b0, b1), 0, 0⟩ hh1 hes.symm rfl
+        exact ⟨ost, e1, by rw [e2, ← hbits], by rw [e3, ← hbits]; rfl⟩
 
 /-! ### the invariant on the bytes -/
 
@@ -193,18 +205,65 @@ def OpInv (st : Oplog.State) (bytes : Bytes) (hf : Header) (es : List Entry) : P
       ∧ SlotIs s0 l.s0 ∧ SlotIs s1 l.s1 ∧ Rotation.Inv ⟨st.bits.1, st.bits.2⟩ hf es l
       ∧ st.entriesByteLength = (framesBytes l.entries).length ∧ (∀ e ∈ es, EntryOK e)
 
-/-- under the invariant, `Oplog::open` returns the last flushed header and exactly the entries logged since -/
+/-- under the protocol invariant the reader derives exactly the in-memory header bits -/
+theorem open_bits_exact {bits : Bits} {h : Header} {es : List Entry} {l : Rotation.Log Header Entry}
+    (inv : Rotation.Inv bits h es l) (b' : Bits) (h' : Header) (es' : List Entry) (hopen : l.open = some (b', h', es')) :
+    b' = bits := by
+  obtain ⟨c0, c1, fs⟩ := l
+  obtain ⟨b0, b1⟩ := bits
+  have hn := inv.newest
+  have ho0 := inv.older0
+  have ho1 := inv.older1
+  simp only at hn ho0 ho1
+  by_cases hb : b0 = b1
+  · subst hb
+    simp only [beq_self_eq_true, ite_true] at hn
+    have h1 := ho1 (by simp)
+    rw [hn] at hopen
+    rcases h1 with h1 | ⟨hh, h1⟩
+    · rw [h1] at hopen
+      simp only [Rotation.Log.open, Option.some.injEq, Prod.mk.injEq] at hopen
+      exact hopen.1.symm
+    · rw [h1] at hopen
+      simp only [Rotation.Log.open, Option.some.injEq, Prod.mk.injEq] at hopen
+      exact hopen.1.symm
+  · have hbe : (b0 == b1) = false := by simpa using hb
+    simp only [hbe, Bool.false_eq_true, ite_false] at hn
+    have h0 := ho0 (by simp [bne, hbe])
+    rw [hn] at hopen
+    rcases h0 with h0 | ⟨hh, h0⟩
+    · rw [h0] at hopen
+      simp only [Rotation.Log.open, Option.some.injEq, Prod.mk.injEq] at hopen
+      have : (!b1) = b0 := by cases b0 <;> cases b1 <;> simp_all
+      rw [← hopen.1, this]
+    · rw [h0] at hopen
+      simp only [Rotation.Log.open, Option.some.injEq, Prod.mk.injEq] at hopen
+      exact hopen.1.symm
+
+/-- under the invariant, `Oplog::open` returns the last flushed header and exactly the entries logged
+    since, and the reader's bookkeeping equals the writer's -/
 theorem opinv_open (st : Oplog.State) (bytes : Bytes) (hf : Header) (es : List Entry) (h : OpInv st bytes hf es) :
-    ∃ ost, openLog none bytes = .ok ⟨ost, hf, [], es⟩ := by
-  obtain ⟨s0, s1, l, rfl, l0, l1, h0, h1, inv, _, hok⟩ := h
+    ∃ ost, openLog none bytes = .ok ⟨ost, hf, [], es⟩ ∧ ost.bits = st.bits ∧ ost.entriesByteLength = st.entriesByteLength := by
+  obtain ⟨s0, s1, l, rfl, l0, l1, h0, h1, inv, hebl, hok⟩ := h
   obtain ⟨b', hopen, _, _⟩ := Rotation.open_of_inv inv
+  have hbits := open_bits_exact inv b' hf es hopen
   have hfr : ∀ f ∈ l.entries, EntryOK f.entry := by
     intro f hf'
     rw [inv.ents] at hf'
     obtain ⟨e, he, rfl⟩ := List.mem_map.mp hf'
     exact hok e he
+  have hents := inv.ents
   obtain ⟨c0, c1, fs⟩ := l
-  exact openLog_abs s0 s1 c0 c1 fs l0 l1 h0 h1 hfr b' hf es hopen
+  obtain ⟨ost, e1, e2, e3⟩ := openLog_abs s0 s1 c0 c1 fs l0 l1 h0 h1 hfr b' hf es hopen
+  refine ⟨ost, e1, by rw [e2, hbits], ?_⟩
+  rw [e3, hebl, hbits]
+  simp only at hents
+  rw [hents, Rotation.takeBit_all]
+
+theorem opinv_congr (st st' : Oplog.State) (bytes : Bytes) (hf : Header) (es : List Entry) (h : OpInv st bytes hf es)
+    (hb : st'.bits = st.bits) (he : st'.entriesByteLength = st.entriesByteLength) : OpInv st' bytes hf es := by
+  obtain ⟨s0, s1, l, e1, l0, l1, h0, h1, inv, hebl, hok⟩ := h
+  exact ⟨s0, s1, l, e1, l0, l1, h0, h1, by rw [hb]; exact inv, by rw [he]; exact hebl, hok⟩
 
 theorem framesBytes_append (fs : List (Rotation.Frame Entry)) (f : Rotation.Frame Entry) :
     framesBytes (fs ++ [f]) = framesBytes fs ++ frame (encEntry f.entry) f.bit f.partial_ := by
